@@ -751,3 +751,237 @@ Proof.
   apply (sel_pos_inv c [] [] [] seg [] eq_refl eq_refl (Forall_nil _) (Forall_nil _)).
 Qed.
 End Sel.
+
+(* ================================================================ E. the segmentation loop with cut positions *)
+Lemma occ_bounds c k e v : occ c k e v -> (N.to_nat k <= e <= length c)%nat.
+Proof. intros (p & w & post & -> & Hl & -> & _). rewrite !app_length. lia. Qed.
+
+Section Cuts.
+Variables (c : list N) (spl : N -> bool) (kN : N).
+Hypothesis Hk : 1 <= kN <= 32.
+Local Notation k := (N.to_nat kN).
+
+(* [cutsP s lo L]: L is the list of segments produced from segment start s when every further cut ends at
+   an index >= lo: each cut ends at an occurrence of a splitter, the next segment starts k bases earlier *)
+Inductive cutsP : nat -> nat -> list segment -> Prop :=
+| cp_last s lo sg : sdata sg = skipn s c -> cutsP s lo [sg]
+| cp_cons s lo e v sg tl : (lo <= e)%nat -> (s < e)%nat -> occ c kN e v -> spl v = true ->
+    sdata sg = slice c s e -> cutsP (e - k) (S e) tl -> cutsP s lo (sg :: tl).
+
+Lemma cutsP_lo s lo lo' L : cutsP s lo L -> (lo' <= lo)%nat -> cutsP s lo' L.
+Proof.
+  intros H Hlo. destruct H as [s lo sg H | s lo e v sg tl H1 H2 H3 H4 H5 H6].
+  - apply cp_last. exact H.
+  - apply cp_cons with (e := e) (v := v); auto. lia.
+Qed.
+
+Lemma cutsP_inv s lo L : cutsP s lo L ->
+  (exists sg, L = [sg] /\ sdata sg = skipn s c) \/
+  (exists e v sg tl, L = sg :: tl /\ (lo <= e)%nat /\ (s < e)%nat /\ occ c kN e v /\ spl v = true /\
+                     sdata sg = slice c s e /\ cutsP (e - k) (S e) tl).
+Proof.
+  intro H. destruct H as [s lo sg H | s lo e v sg tl H1 H2 H3 H4 H5 H6]; [left; eauto|].
+  right. exists e, v, sg, tl. auto 10.
+Qed.
+
+Lemma seg_cuts_gen ws : ws = true -> forall rest pre run p0 s f fd,
+  c = pre ++ rest -> pre = p0 ++ run -> Forall acgt run -> (s <= length pre)%nat -> (s < length c)%nat ->
+  cutsP s (S (length pre)) (seg_loop ws spl k c rest (length pre) (feed (kmer_new kN) run) s f fd).
+Proof.
+  intro Hws.
+  induction rest as [|base rest IH]; intros pre run p0 s f fd Hc Hp Hrun Hs Hlt.
+  - cbn [seg_loop]. rewrite Segment_proofs.seg_final_eq by assumption. apply cp_last. reflexivity.
+  - assert (Hc' : c = (pre ++ [base]) ++ rest) by (rewrite <- app_assoc; exact Hc).
+    assert (Hlen' : length (pre ++ [base]) = S (length pre)) by (rewrite app_length; cbn; lia).
+    assert (Hle : (S (length pre) <= length c)%nat) by (rewrite Hc', app_length; lia).
+    cbn [seg_loop]. destruct (3 <? base) eqn:Hb.
+    + rewrite Segment_proofs.reset_feed. rewrite <- Hlen'.
+      apply cutsP_lo with (lo := S (length (pre ++ [base]))); [|lia].
+      apply (IH (pre ++ [base]) [] (pre ++ [base]) s f fd); auto.
+      * rewrite app_nil_r; reflexivity.
+      * lia.
+    + apply Segment_proofs.acgt_ltb in Hb.
+      assert (Hrun' : Forall acgt (run ++ [base])) by (apply Forall_app; split; [assumption | repeat constructor; assumption]).
+      assert (Hp' : pre ++ [base] = p0 ++ run ++ [base]) by (rewrite Hp, <- app_assoc; reflexivity).
+      assert (Hl' : length (run ++ [base]) = S (length run)) by (rewrite app_length; cbn; lia).
+      rewrite <- Segment_proofs.feed_snoc. rewrite Segment_proofs.is_full_feed.
+      destruct (N.leb_spec kN (lenN (run ++ [base]))) as [Hfull|Hnf].
+      * unfold lenN in Hfull. rewrite Hl' in Hfull.
+        assert (Hocc : occ c kN (S (length pre)) (data_canonical (feed (kmer_new kN) (run ++ [base])))).
+        { rewrite full_value by (auto; lia). rewrite <- Hlen'.
+          apply (occ_of_run c kN (pre ++ [base]) rest p0 (run ++ [base])); auto. lia. }
+        destruct (spl (data_canonical (feed (kmer_new kN) (run ++ [base])))) eqn:Hspl.
+        -- rewrite Segment_proofs.pushed_eq by lia. cbn [app].
+           apply cp_cons with (e := S (length pre)) (v := data_canonical (feed (kmer_new kN) (run ++ [base]))); auto; [lia|].
+           subst ws. cbv iota. rewrite Segment_proofs.reset_feed. rewrite <- Hlen'.
+           apply (IH (pre ++ [base]) [] (pre ++ [base])); auto.
+           ++ rewrite app_nil_r; reflexivity.
+           ++ lia.
+           ++ lia.
+        -- rewrite <- Hlen'. apply cutsP_lo with (lo := S (length (pre ++ [base]))); [|lia].
+           apply (IH (pre ++ [base]) (run ++ [base]) p0 s f fd); auto. lia.
+      * rewrite <- Hlen'. apply cutsP_lo with (lo := S (length (pre ++ [base]))); [|lia].
+        apply (IH (pre ++ [base]) (run ++ [base]) p0 s f fd); auto. lia.
+Qed.
+
+Lemma seg_cuts : forall rest pre run p0 s f fd,
+  c = pre ++ rest -> pre = p0 ++ run -> Forall acgt run -> (s <= length pre)%nat -> (s < length c)%nat ->
+  cutsP s (S (length pre)) (seg_loop true spl k c rest (length pre) (feed (kmer_new kN) run) s f fd).
+Proof. exact (seg_cuts_gen true eq_refl). Qed.
+
+Lemma split_cuts : kN <= lenN c -> cutsP 0 1 (split_gen true c spl kN).
+Proof.
+  intro Hl. unfold split_gen. destruct (N.ltb_spec (lenN c) kN) as [H|_]; [lia|].
+  assert (Hlt : (0 < length c)%nat) by (unfold lenN in Hl; lia).
+  pose proof (seg_cuts c [] [] [] 0%nat MISSING_KMER false eq_refl eq_refl (Forall_nil _) (le_n _) Hlt) as C.
+  cbn [length feed fold_left] in C.
+  destruct (seg_loop true spl k c c 0 (kmer_new kN) 0 MISSING_KMER false) eqn:E; [inversion C | exact C].
+Qed.
+
+(* ---- interior segments, given what the selection guarantees about the cut positions *)
+Variables (seg : N) (Lp Ep : list (nat * N)).
+Hypothesis HP : forall e v, occ c kN e v -> spl v = true -> In (e, v) (Lp ++ Ep).
+Hypothesis Hsp : forall ev ev', In ev Lp -> In ev' Lp -> (fst ev < fst ev')%nat ->
+  N.of_nat (fst ev) + seg <= N.of_nat (fst ev').
+Hypothesis Hend : forall ev ev', In ev Ep -> In ev' Lp -> (fst ev' < fst ev)%nat.
+Hypothesis Hone : (length Ep <= 1)%nat.
+
+Lemma Ep_one a b : In a Ep -> In b Ep -> a = b.
+Proof.
+  destruct Ep as [|x [|y t]]; cbn in *; [tauto | | lia]. intros [<-|[]] [<-|[]]. reflexivity.
+Qed.
+
+(* a cut that is followed by a later cut is a loop pick *)
+Lemma earlier_cut_is_loop e v e2 v2 : occ c kN e v -> spl v = true -> occ c kN e2 v2 -> spl v2 = true ->
+  (e < e2)%nat -> In (e, v) Lp.
+Proof.
+  intros O1 S1 O2 S2 Hlt. pose proof (HP e v O1 S1) as H1. pose proof (HP e2 v2 O2 S2) as H2.
+  apply in_app_or in H1. apply in_app_or in H2. destruct H1 as [H1|H1]; [exact H1|]. exfalso.
+  destruct H2 as [H2|H2].
+  - pose proof (Hend _ _ H1 H2). cbn [fst] in *. lia.
+  - pose proof (Ep_one _ _ H1 H2) as E. injection E as E _. lia.
+Qed.
+
+Lemma interior_tail : forall s lo L, cutsP s lo L ->
+  forall e0 v0, s = (e0 - k)%nat -> lo = S e0 -> occ c kN e0 v0 -> spl v0 = true ->
+  forall j sg, (j + 3 <= length L)%nat -> nth_error L j = Some sg -> seg + kN <= lenN (sdata sg).
+Proof.
+  induction 1 as [s lo sg0 H | s lo e v sg0 tl H1 H2 H3 H4 H5 H6 IH]; intros e0 v0 Es El O0 S0 j sg Hj Hn.
+  - cbn [length] in Hj. lia.
+  - destruct j as [|j].
+    + cbn in Hn. injection Hn as <-.
+      (* the tail has at least two segments: there is a later cut *)
+      inversion H6 as [s' lo' sg' Hd | s' lo' e2 v2 sg' tl' K1 K2 K3 K4 K5 K6]; subst.
+      { cbn [length] in Hj. lia. }
+      pose proof (occ_bounds _ _ _ _ O0) as B0. pose proof (occ_bounds _ _ _ _ H3) as B1.
+      assert (I0 : In (e0, v0) Lp) by (apply (earlier_cut_is_loop e0 v0 e v); auto; lia).
+      assert (I1 : In (e, v) Lp) by (apply (earlier_cut_is_loop e v e2 v2); auto; lia).
+      pose proof (Hsp _ _ I0 I1 ltac:(cbn [fst]; lia)) as Hd. cbn [fst] in Hd.
+      unfold lenN. rewrite H5. rewrite Segment_proofs.slice_length by lia. lia.
+    + cbn [nth_error] in Hn. cbn [length] in Hj.
+      apply (IH e v eq_refl eq_refl H3 H4 j sg); [lia | exact Hn].
+Qed.
+
+Lemma interior_from_cuts : forall i sg, (1 <= i)%nat -> (i + 3 <= length (split_gen true c spl kN))%nat ->
+  nth_error (split_gen true c spl kN) i = Some sg -> seg + kN <= lenN (sdata sg).
+Proof.
+  intros i sg Hi Hlen Hn.
+  destruct (N.ltb_spec (lenN c) kN) as [Hs|Hl].
+  { rewrite Segment_proofs.short_single_proof in Hlen by exact Hs. cbn [length] in Hlen. lia. }
+  pose proof (split_cuts Hl) as C.
+  apply cutsP_inv in C.
+  destruct C as [(sg0 & E & _) | (e & v & sg0 & tl & E & H1 & H2 & H3 & H4 & H5 & H6)]; rewrite E in Hlen, Hn;
+    [cbn [length] in Hlen; lia|].
+  destruct i as [|i]; [lia|]. cbn [nth_error] in Hn. cbn [length] in Hlen.
+  apply (interior_tail _ _ _ H6 e v eq_refl eq_refl H3 H4 i sg); [lia | exact Hn].
+Qed.
+End Cuts.
+
+(* ================================================================ F. a splitter occurs only at its pick position *)
+Lemma cnt_concat_In (ls : list (list N)) l v : In l ls -> In v l -> (1 <= cnt (concat ls) v)%nat.
+Proof.
+  intros H1 H2. assert (H : In v (concat ls)) by (apply in_concat; exists l; auto).
+  apply (count_occ_In N.eq_dec) in H. lia.
+Qed.
+
+Section Pick.
+Variables (sort : list N -> list N) (A B : list (list N)) (c : list N) (kN seg : N).
+Hypothesis S : sort_ok sort.
+Hypothesis Hk : 1 <= kN <= 32.
+Let contigs := A ++ c :: B.
+Let cands := remove_non_singletons (sort (all_kmers contigs kN)) 0.
+Let used := concat (map (fun c' => find_actual_splitters_in_contig c' (mem cands) kN seg) contigs).
+
+Lemma cand_singleton v : mem cands v = true -> cnt (kmers_of_ref kN contigs) v = 1%nat.
+Proof.
+  intro H. apply mem_In in H. unfold cands in H. apply singletons_of_sorted in H; [|apply S].
+  rewrite (perm_cnt _ _ v (proj1 (S _))) in H. rewrite all_kmers_spec in H by exact Hk. exact H.
+Qed.
+
+Lemma ref_split v : cnt (kmers_of_ref kN contigs) v =
+  (cnt (kmers_of_ref kN A) v + cnt (kmers_spec kN c) v + cnt (kmers_of_ref kN B) v)%nat.
+Proof.
+  unfold kmers_of_ref, contigs. rewrite map_app, concat_app. cbn [map concat].
+  rewrite !count_occ_app. lia.
+Qed.
+
+Lemma used_pick e v : occ c kN e v -> In v used ->
+  In (e, v) (fst (picks_of (mem cands) seg kN c) ++ snd (picks_of (mem cands) seg kN c)).
+Proof.
+  intros O Hu. unfold used in Hu. apply in_concat in Hu. destruct Hu as (l & Hl & Hv).
+  apply in_map_iff in Hl. destruct Hl as (c' & <- & Hc').
+  rewrite picks_of_erase in Hv. apply in_map_iff in Hv. destruct Hv as (ev & Hev & Hin).
+  destruct (picks_of_good (mem cands) seg kN c' Hk) as (G1 & _).
+  rewrite Forall_forall in G1. destruct (G1 ev Hin) as (O' & Hcand). rewrite Hev in O', Hcand.
+  pose proof (cand_singleton v Hcand) as H1. rewrite ref_split in H1.
+  assert (Hkn : (1 <= N.to_nat kN)%nat) by lia.
+  pose proof (occ_In c kN e v Hkn O) as I0. apply (count_occ_In N.eq_dec) in I0.
+  pose proof (occ_In c' kN (fst ev) v Hkn O') as I1.
+  unfold contigs in Hc'. apply in_app_or in Hc'. destruct Hc' as [Hc'|[Hc'|Hc']].
+  - pose proof (cnt_concat_In (map (kmers_spec kN) A) _ v (in_map _ _ _ Hc') I1). unfold kmers_of_ref in H1. lia.
+  - subst c'. assert (E : fst ev = e) by (apply (occ_unique c kN (fst ev) e v Hkn O' O); lia).
+    destruct ev as (e' & v'). cbn [fst snd] in *. subst. exact Hin.
+  - pose proof (cnt_concat_In (map (kmers_spec kN) B) _ v (in_map _ _ _ Hc') I1). unfold kmers_of_ref in H1. lia.
+Qed.
+End Pick.
+
+(* every returned splitter is picked somewhere, hence a candidate *)
+Lemma splitters_subset_proof : forall sort contigs k seg spl sing dup,
+  (forall l, Permutation (sort l) l /\ StronglySorted N.le (sort l)) -> 1 <= k <= 32 ->
+  determine_splitters_gen sort contigs k seg = (spl, sing, dup) ->
+  forall v, In v spl -> In v sing /\ cnt (concat (map (kmers_spec k) contigs)) v = 1%nat.
+Proof.
+  intros sort contigs k seg spl sing dup S Hk E v Hv.
+  assert (Hs : In v sing); [|split; [exact Hs | apply (singletons_exact_proof _ _ _ _ _ _ _ S Hk E); exact Hs]].
+  rewrite det_unfold in E. injection E as <- <- _.
+  rewrite canon_set_In in Hv by exact S. rewrite canon_set_In by exact S.
+  apply in_concat in Hv. destruct Hv as (l & Hl & Hv). apply in_map_iff in Hl. destruct Hl as (c' & <- & Hc').
+  rewrite picks_of_erase in Hv. apply in_map_iff in Hv. destruct Hv as (ev & Hev & Hin).
+  destruct (picks_of_good (mem (remove_non_singletons (sort (all_kmers contigs k)) 0)) seg k c' Hk) as (G1 & _).
+  rewrite Forall_forall in G1. destruct (G1 ev Hin) as (_ & Hcand). rewrite Hev in Hcand.
+  apply mem_In. exact Hcand.
+Qed.
+
+Lemma interior_spacing_proof : forall sort contigs k seg spl sing dup c i s,
+  (forall l, Permutation (sort l) l /\ StronglySorted N.le (sort l)) -> 1 <= k <= 32 ->
+  determine_splitters_gen sort contigs k seg = (spl, sing, dup) ->
+  In c contigs ->
+  (1 <= i)%nat -> (i + 3 <= length (split_at_splitters_with_size c (set_of_list spl) k seg))%nat ->
+  nth_error (split_at_splitters_with_size c (set_of_list spl) k seg) i = Some s ->
+  seg + k <= lenN (sdata s).
+Proof.
+  intros sort contigs k seg spl sing dup c i s S Hk E Hc Hi Hlen Hn.
+  apply in_split in Hc. destruct Hc as (A & B & ->).
+  rewrite det_unfold in E. injection E as <- _ _.
+  set (cands := remove_non_singletons (sort (all_kmers (A ++ c :: B) k)) 0) in *.
+  set (used := concat (map (fun c' => find_actual_splitters_in_contig c' (mem cands) k seg) (A ++ c :: B))) in *.
+  unfold split_at_splitters_with_size in *.
+  destruct (picks_of_good (mem cands) seg k c Hk) as (G1 & G2 & G3 & G4).
+  apply (interior_from_cuts c (set_of_list (canon_set sort used)) k Hk seg
+           (fst (picks_of (mem cands) seg k c)) (snd (picks_of (mem cands) seg k c))) with (i := i); auto.
+  - intros e v O Hs. apply (used_pick sort A B c k seg S Hk e v O).
+    change (set_of_list (canon_set sort used) v) with (mem (canon_set sort used) v) in Hs.
+    apply mem_In in Hs. apply canon_set_In in Hs; [exact Hs | exact S].
+  - intros ev ev'. apply (picks_ok_spaced seg _ _ _ G2).
+  - intros ev ev' He He'. destruct (G3 ev He) as [([] & _)|(_ & Hall)]. apply Hall. exact He'.
+Qed.
